@@ -613,14 +613,18 @@ impl FormatSpec {
     {
         self.validate_format(FormatType::String)?;
         match self.format_type {
-            Some(FormatType::String) | None => self
-                .format_sign_and_align(s, "", FormatAlign::Left)
-                .map(|mut value| {
-                    if let Some(precision) = self.precision {
-                        value.truncate(precision);
-                    }
-                    value
-                }),
+            Some(FormatType::String) | None => match self.precision {
+                // precision truncates the value to that many characters, before padding
+                Some(precision) if precision < s.char_len() => {
+                    let end = s.char_indices().nth(precision).map_or(s.len(), |(i, _)| i);
+                    let truncated = TruncatedStr {
+                        inner: &s[..end],
+                        char_len: precision,
+                    };
+                    self.format_sign_and_align(&truncated, "", FormatAlign::Left)
+                }
+                _ => self.format_sign_and_align(s, "", FormatAlign::Left),
+            },
             _ => {
                 let ch = char::from(self.format_type.as_ref().unwrap());
                 Err(FormatSpecError::UnknownFormatCode(ch, "str"))
@@ -700,6 +704,24 @@ impl CharLen for AsciiStr<'_> {
 }
 
 impl Deref for AsciiStr<'_> {
+    type Target = str;
+    fn deref(&self) -> &Self::Target {
+        self.inner
+    }
+}
+
+struct TruncatedStr<'a> {
+    inner: &'a str,
+    char_len: usize,
+}
+
+impl CharLen for TruncatedStr<'_> {
+    fn char_len(&self) -> usize {
+        self.char_len
+    }
+}
+
+impl Deref for TruncatedStr<'_> {
     type Target = str;
     fn deref(&self) -> &Self::Target {
         self.inner
